@@ -23,7 +23,7 @@ LEVEL_TEXT = ("Theorems over the state-interface contract model: in every execut
               "very first message, whenever it subscribed; every execution is equivalent (same logs, same deliveries in the same order) to one in "
               "which all subscriptions come first - so start delays are delivery delays, and schedule independence (C08) transfers; with the producer "
               "created before the subscription no interleaving handles an input without a producer (and the opposite order provably crashes); the synchronous internal bus is proved to be a refinement of the contract bus. THE LINK TO OBSERVATIONS (Core/MsgFlat, MsgFlatRun; Props/C08Msg, C08MsgRun - a message-level model of one scheduler level over the contract bus in which the scheduler and every component START AT ANY MOMENT, in any order, and messages produced to a topic before its consumer started stay in the log and are consumed after it starts): from every reachable state the tick in progress can be completed (msg_tick_can_complete, msg_run_can_complete_tick); a tick cannot complete while a component that was sent an Input has not started, and once it starts it handles exactly that Input, exactly once (msg_not_complete_while_unstarted, msg_input_exactly_once); every root of the initial tick is sent an Input (msg_root_gets_input); every history refines the atomic tick system and over many ticks a FlatRun, so two runs with different start patterns and interleavings have the same tick times and per-device observations - the run proceeds as if all had started together (msg_run_refines_flatRun, msg_run_schedule_independent). PARTIAL: "
-              "the message-level model covers one (flat) scheduler level without interrupts; nested levels and early interrupts are validated. Tie to the code: every "
+              "the message-level model covers one (flat) scheduler level without interrupts; nested levels and early interrupts are validated. The message-level model is a TRACE ACCEPTOR for the flat configuration: for every start-delay vector run under the delaying bus and tickit's own Kafka interface, the real order of subscriptions, deliveries and tick starts must be an execution of Core/MsgFlatRun with the same device updates. Tie to the code: every "
               "assignment of start delays 0..2/3 event-loop steps to the scheduler and each top-level component (device and system components) of "
               "small configurations, under the internal-bus semantics and a delaying bus, plus early interrupts raised before a late scheduler is "
               "up: the initial tick must reach every device once, complete, and all observation sequences must equal the simultaneous start.")
@@ -63,8 +63,8 @@ def run(tier, seed, drv):
         SC.check_run(scn, base, drv, res, monitors_on=("initial_tick",), corr=("ticker",), case_extra={"bus": "sync"})
         dvals = (0, 1, 3) if tier == "quick" else (0, 1, 2, 3, 6)
         vectors = list(itertools.product(dvals, repeat=len(procs)))
-        if tier == "quick" and len(vectors) > 90:
-            vectors = [v for v in vectors if rng.random() < 90 / len(vectors)] + [tuple([3] + [0] * (len(procs) - 1)), tuple([0] + [3] * (len(procs) - 1))]
+        if tier == "quick" and len(vectors) > 60:
+            vectors = [v for v in vectors if rng.random() < 60 / len(vectors)] + [tuple([3] + [0] * (len(procs) - 1)), tuple([0] + [3] * (len(procs) - 1))]
         for vec in vectors:
             delays = dict(zip(procs, vec))
             vi = vectors.index(vec)
@@ -78,6 +78,9 @@ def run(tier, seed, drv):
                 n = SC.check_run(s2, run_, drv, res, monitors_on=("initial_tick", "ticker"), corr=("ticker",), case_extra=case)
                 if n == 0:
                     compare(base, run_, scn, res, case)
+                    if b in ("held", "kafka"):
+                        # the history of subscriptions and deliveries (with these start delays) is an execution of the message-level model
+                        SC.msg_level_accept(s2, run_, drv, res, case)
         # early interrupts: a component that is already running raises before the late scheduler is up
         for late in range(2, maxd + 3):
             for who in [c["name"] for c in S.devices(scn)][:3]:
@@ -130,7 +133,7 @@ def run(tier, seed, drv):
                         res.violate(V("early-interrupt-lost", f"{who} (inside {sysc['name']}) raised an interrupt at loop step {1 + step} with start delays master={md} "
                                       f"{sysc['name']}={sdl} and was never updated afterwards", site="early-interrupt", comp=who, inner=True), case)
     res.rule = (f"2 configurations (3-device diamond-ish chain; source -> system(2 inner devices) -> sink); every assignment of start delays 0..{maxd} loop "
-                "steps to the master and each top-level component" + (" (sampled to ~90 vectors per configuration in the quick tier, extremes always included)" if tier == "quick" else "") +
+                "steps to the master and each top-level component" + (" (sampled to ~60 vectors per configuration in the quick tier, extremes always included)" if tier == "quick" else "") +
                 ", under internal-bus semantics and a delaying bus; plus interrupts raised at each step before a scheduler that starts 2.." + str(maxd + 2) +
                 " steps late; plus interrupts of devices inside the system simulation at each of the first loop steps for combinations of master and system "
                 "start delays; non-trivial = some delay is non-zero / the early interrupt was raised")
